@@ -70,6 +70,11 @@ impl<BS: BlockSizes> BlockCipherEncClosure for Closure<'_, BS> {
 
         cbc_enc(cipher, &mut iv, blocks.reborrow());
 
+        if tail.is_empty() && blocks.len() == 1 {
+            // A single-block message is plain CBC: nothing to steal or exchange
+            return;
+        }
+
         if tail.is_empty() && blocks.len() > 1 {
             let blocks = blocks.get_out();
             let (last, rest) = blocks.split_last_mut().unwrap();
@@ -103,6 +108,13 @@ impl<BS: BlockSizes> BlockCipherDecClosure for Closure<'_, BS> {
         debug_assert_eq!(rem.len(), 0);
 
         cbc_dec(cipher, &mut iv, blocks);
+
+        if tail.len() == bs {
+            // A single-block message is plain CBC: nothing to steal or exchange
+            let (block, _) = tail.into_chunks();
+            cbc_dec(cipher, &mut iv, block);
+            return;
+        }
 
         let n = tail.len() - bs;
         let mut block1: Block<B> = tail.get_in()[..bs].try_into().unwrap();
